@@ -12,7 +12,13 @@ from .loader import AnalysisError, Program
 def run_rules(prop, prog, tier):
     mod = importlib.import_module("sa.rules.%s" % prop)
     ctx = core.Ctx(prop, prog, tier)
-    explanation = mod.run(ctx)
+    try:
+        explanation = mod.run(ctx)
+    except AnalysisError as e:
+        # a rule lost its anchor: the rules that already ran keep their verdicts (a violation found by them is still a violation,
+        # exit 1); the rest of the property is undecided (exit 2 unless a violation is already established)
+        ctx.undecided("ANCHOR", prop, "analysis stopped: %s" % e)
+        explanation = "analysis of %s stopped early (%s); the obligations listed were decided before that" % (prop, e)
     return ctx, explanation
 
 
